@@ -76,6 +76,8 @@ def scheme_case(mod, name, dim, solid, opts, nsteps=2):
     Prop.C_DIVISION = True    # x/0.0 -> inf/nan like the compiled code
     for side in ('reference', 'compiled'):
         PROGRESS['side'] = side
+        from vlib.build import reset_group_counter
+        reset_group_counter()
         buf = io.StringIO()
         with contextlib.redirect_stdout(buf), np.errstate(all="ignore"):
             s = S.make_scheme(cls, dim, solid, opts)
@@ -240,6 +242,26 @@ class TrStepB(IntegratorStep):
 
     def stage3(self, d_idx, d_tr, d_au):
         d_tr[d_idx] = d_tr[d_idx]*19.0 + d_au[d_idx] + 3.0
+
+
+class TrStepD(IntegratorStep):
+    """stages 2, 4 and 5 exist only as python level hooks (a prescribed
+    motion body): the hook is the whole stage for this array"""
+    def stage1(self, d_idx, d_tr, t, dt):
+        d_tr[d_idx] = d_tr[d_idx]*23.0 + t*1000.0 + dt*100000.0 + 1.0
+
+    def py_stage2(self, dst, t, dt):
+        dst.hook[0] = dst.hook[0]*7.0 + t*1000.0 + dt*100000.0 + 2.0
+        dst.tr[:] = dst.tr*1.5 + 0.25
+
+    def stage3(self, d_idx, d_tr):
+        d_tr[d_idx] = d_tr[d_idx]*29.0 + 3.0
+
+    def py_stage4(self, dst, t, dt):
+        dst.tr[:] = dst.tr*0.5 + t
+
+    def py_stage5(self, dst, t, dt):
+        dst.hook[0] = dst.hook[0] + 5.0
 
 '''
 
@@ -409,6 +431,8 @@ def gen_case(idx, thorough, wiring, module=None):
     logs = {}
     for side in ('compiled', 'reference'):
         arrays, dom = gen_arrays(mirror=(wiring == 4))
+        from vlib.build import reset_group_counter
+        reset_group_counter()
         if wiring in (0, 4):
             steppers = dict(a=mod.TrStepA(k=2.0), b=mod.TrStepB())
         elif wiring == 1:
@@ -416,6 +440,9 @@ def gen_case(idx, thorough, wiring, module=None):
                             c=mod.TrStepA(k=6.0))
         elif wiring == 3:
             steppers = dict(a=mod.TrStepC(k=2.0), b=mod.TrStepA(k=5.0))
+        elif wiring == 5:
+            steppers = dict(a=mod.TrStepA(k=2.0), b=mod.TrStepD(),
+                            c=mod.TrStepB())
         else:
             steppers = dict(c=mod.TrStepA(k=3.0))
         integ = cls(**steppers)
@@ -494,7 +521,7 @@ def run(ctx):
     gsrc, _ = gen_integrators(ctx.thorough)
     gjobs = []
     bodies = gsrc.split('class GenInt')[1:]
-    for w in (0, 1, 2, 3, 4):
+    for w in (0, 1, 2, 3, 4, 5):
         idxs = list(range(ngen))
         if w == 4:
             # mirror domain + fixed_h: integrators that call update_domain
@@ -579,7 +606,7 @@ def run(ctx):
                     'False, evaluator 1) x update_domain after each stage or '
                     'not x stage-time fractions, with five wirings '
                     '(one array without stepper, py_stage hooks on a subset '
-                    'of stages, a hook that adds particles; a mirror instead of a periodic domain with fixed_h declared) on three arrays in a periodic domain, 3 '
+                    'of stages, a hook that adds particles, stages that exist only as a python hook; a mirror instead of a periodic domain with fixed_h declared) on three arrays in a periodic domain, 3 '
                     'steps of varying dt; compiled Integrator.step vs the '
                     'mirror; all properties and the post-stage log; (c) an '
                     'integrator class re-defined twice under the same module '
